@@ -12,7 +12,14 @@
 
    Values: numbers are exact quarter units (an integer n is 4n, a double literal such as 1.25
    is 5) so BIGINT/DOUBLE comparisons are exact; strings are byte lists (ASCII in the tie);
-   timestamps are microseconds. *)
+   timestamps are microseconds.
+
+   Files of one measurement may have different schemas (schemaless ingest): the same column can be
+   BIGINT in one file and DOUBLE in another - irrelevant here because numbers are exact - and a
+   column can be absent from a file: every row of that file then holds [VMissing] there.  The
+   affected-file search reads all files with union_by_name=true, where an absent column is NULL; the
+   per-file rewrite reads the file alone, where a predicate that names an absent column does not
+   bind: that file's rewrite fails, the file stays as it is and the response reports it (207). *)
 From Coq Require Import List ZArith NArith Bool.
 Import ListNotations.
 Open Scope Z_scope.
@@ -39,6 +46,7 @@ Definition of_bool (b : bool) : tri := if b then T else F.
 
 (* ---- values, rows, predicates --------------------------------------------------------------- *)
 Inductive value :=
+| VMissing                  (* the file has no such column *)
 | VNull
 | VNum (q : Z)              (* BIGINT n = VNum (4n); DOUBLE / decimal literal in quarter units *)
 | VStr (s : list N)
@@ -126,7 +134,8 @@ Fixpoint tin (a : value) (vs : list value) : tri :=
   | v :: r => tor (tcmp CEq a v) (tin a r)
   end.
 
-Definition is_null (v : value) : bool := match v with VNull => true | _ => false end.
+Definition is_null (v : value) : bool := match v with VNull | VMissing => true | _ => false end.
+Definition is_missing (v : value) : bool := match v with VMissing => true | _ => false end.
 
 Definition opval (r : row) (o : operand) : value :=
   match o with OCol i => nth i r VNull | OLit v => v end.
@@ -149,6 +158,21 @@ Fixpoint eval (r : row) (p : pred) : tri :=
   | PIsNotTrue q => of_bool (negb (tri_eqb (eval r q) T))
   | PIsTrue q => of_bool (tri_eqb (eval r q) T)
   end.
+
+(* the columns a predicate names *)
+Definition oprefs (o : operand) : list nat := match o with OCol i => [i] | OLit _ => [] end.
+Fixpoint refs (p : pred) : list nat :=
+  match p with
+  | PConst _ => []
+  | PCmp _ a b => oprefs a ++ oprefs b
+  | PBetween a lo hi => oprefs a ++ oprefs lo ++ oprefs hi
+  | PIn a _ | PNotIn a _ | PLike a _ | PNotLike a _ | PIsNull a | PIsNotNull a | PBool a => oprefs a
+  | PNot q | PIsNotTrue q | PIsTrue q => refs q
+  | PAnd q1 q2 | POr q1 q2 => refs q1 ++ refs q2
+  end.
+(* read alone, the file does not have every column the predicate names: DuckDB refuses the query *)
+Definition unbound_row (p : pred) (r : row) : bool := existsb (fun i => is_missing (nth i r VNull)) (refs p).
+Definition unbound (p : pred) (rows : list row) : bool := existsb (unbound_row p) rows.
 
 (* a WHERE clause (and COUNT( * ) FILTER) keeps a row iff the condition is TRUE *)
 Definition holds (r : row) (p : pred) : bool := tri_eqb (eval r p) T.
@@ -181,7 +205,8 @@ Record response := {
   rs_success : bool;
   rs_deleted : Z;
   rs_affected : Z;
-  rs_rewritten : Z
+  rs_rewritten : Z;
+  rs_failed : Z          (* len(FailedFiles) *)
 }.
 
 Definition countb {A} (f : A -> bool) (l : list A) : Z := Z.of_nat (length (filter f l)).
@@ -202,22 +227,26 @@ Definition rewrite_file (v : variant) (p : pred) (f : file) : Z * option file :=
   | _ => (deleted, Some (fst f, kept))
   end.
 
-(* the loop over the affected files; unaffected files are not touched *)
-Fixpoint rewrite_all (v : variant) (p : pred) (ds : dataset) : Z * dataset :=
+(* the loop over the affected files; unaffected files are not touched; a file whose rewrite
+   fails (the predicate does not bind against the file read alone) is logged and left as it is.
+   Result: rows deleted, files that failed, the dataset afterwards *)
+Fixpoint rewrite_all (v : variant) (p : pred) (ds : dataset) : Z * Z * dataset :=
   match ds with
-  | [] => (0, [])
+  | [] => (0, 0, [])
   | f :: r =>
-      let '(d, r') := rewrite_all v p r in
+      let '(d, k, r') := rewrite_all v p r in
       if is_affected p f then
+        if unbound p (snd f) then (d, k + 1, f :: r')
+        else
         match rewrite_file v p f with
-        | (df, None) => (df + d, r')
-        | (df, Some f') => (df + d, f' :: r')
+        | (df, None) => (df + d, k, r')
+        | (df, Some f') => (df + d, k, f' :: r')
         end
-      else (d, f :: r')
+      else (d, k, f :: r')
   end.
 
 Definition resp (st : Z) (ok : bool) (d a w : Z) : response :=
-  {| rs_status := st; rs_success := ok; rs_deleted := d; rs_affected := a; rs_rewritten := w |}.
+  {| rs_status := st; rs_success := ok; rs_deleted := d; rs_affected := a; rs_rewritten := w; rs_failed := 0 |}.
 
 (* handleDelete (delete.enabled = true, database/measurement names valid, standalone mode) *)
 Definition delete_run (v : variant) (cf : config) (rq : request) (ds : dataset) : response * dataset :=
@@ -237,7 +266,11 @@ Definition delete_run (v : variant) (cf : config) (rq : request) (ds : dataset) 
         if cf_max_rows cf <? total then (resp 400 false 0 0 0, ds)
         else if (cf_threshold cf <? total) && negb (rq_confirm rq) then (resp 400 false 0 0 0, ds)
         else if rq_dry rq then (resp 200 true total n 0, ds)
-        else let '(d, ds') := rewrite_all v p ds in (resp 200 true d n n, ds')
+        else let '(d, k, ds') := rewrite_all v p ds in
+             if 0 <? k
+             then ({| rs_status := 207; rs_success := false; rs_deleted := d; rs_affected := n;
+                      rs_rewritten := n - k; rs_failed := k |}, ds')
+             else (resp 200 true d n n, ds')
       end
   end.
 
@@ -261,6 +294,7 @@ Fixpoint bytes_eqb (a b : list N) : bool :=
 Definition value_eqb (a b : value) : bool :=
   match a, b with
   | VNull, VNull => true
+  | VMissing, VMissing => true
   | VNum x, VNum y => x =? y
   | VStr x, VStr y => bytes_eqb x y
   | VBool x, VBool y => Bool.eqb x y
@@ -272,7 +306,7 @@ Definition file_eqb (a b : file) : bool := N.eqb (fst a) (fst b) && list_eqb row
 Definition dataset_eqb := list_eqb file_eqb.
 Definition response_eqb (a b : response) : bool :=
   (rs_status a =? rs_status b) && Bool.eqb (rs_success a) (rs_success b) && (rs_deleted a =? rs_deleted b) &&
-  (rs_affected a =? rs_affected b) && (rs_rewritten a =? rs_rewritten b).
+  (rs_affected a =? rs_affected b) && (rs_rewritten a =? rs_rewritten b) && (rs_failed a =? rs_failed b).
 
 (* one correspondence case: a dataset (files in listing order), a request sent twice - first as a
    dry run, then for real with the same confirm flag - and what the real handler + DuckDB did *)
@@ -324,11 +358,23 @@ Definition spec_rows (c : ccase) : list row :=
 Definition nrows (ds : dataset) : Z := Z.of_nat (length (rows_of ds)).
 
 Definition oracle_dry_unchanged (c : ccase) : bool := dataset_eqb (c_ds c) (c_dry_ds c).
+(* 207 (some rewrites failed and are reported): every file is either exactly rewritten or untouched *)
+Fixpoint find_file (id : N) (ds : dataset) : option (list row) :=
+  match ds with [] => None | f :: r => if N.eqb (fst f) id then Some (snd f) else find_file id r end.
+Definition oracle_partial (c : ccase) : bool :=
+  forallb (fun ft : file * list tri =>
+             let spec := zip_filter (snd (fst ft)) (snd ft) in
+             match find_file (fst (fst ft)) (c_after c) with
+             | Some rows => list_eqb row_eqb rows spec || list_eqb row_eqb rows (snd (fst ft))
+             | None => match spec with [] => true | _ => false end
+             end) (combine (c_ds c) (c_duck c)).
 Definition oracle_exact (c : ccase) : bool :=
   match rq_class (c_req c) with
   | WValid =>
       if (rs_status (c_resp c) =? 200) && rs_success (c_resp c)
       then list_eqb row_eqb (rows_of (c_after c)) (spec_rows c)
+      else if (rs_status (c_resp c) =? 207) && negb (rs_success (c_resp c)) && (0 <? rs_failed (c_resp c))
+      then oracle_partial c
       else dataset_eqb (c_ds c) (c_after c)
   | _ => dataset_eqb (c_ds c) (c_after c)
   end.
